@@ -446,7 +446,7 @@ def clauses(tier):
     })
     l2_case = lambda: st.fixed_dictionaries({  # noqa
         "bank": narrowed_specs(["gabor", "gammatone", "gammatone"], rates=[1000, 2000, 8000, 8000, 16000, 44100],
-                               orders=(2, 3, 3, 4, 4, 5, 6), always=True).map(
+                               orders=(2, 3, 4, 4, 5, 6, 8, 10, 11), always=True).map(
             lambda s: dict(s, scale_l2_norm=True)),
         "filt": st.integers(0, 39),
         "extra": st.integers(0, 9),
